@@ -138,9 +138,17 @@ func checkHeadProgram(c *Ctx, p *mon.Prog, viaFacade int) {
 		_, _, h = s.Handle(pattern, nil, Via{}, mws...)
 	}
 	h.Prog = p
-	og := mon.Do(s.R, mon.Req{Method: "GET", Path: "/p/7/x"})
+	// the router is an http.Handler of its own and the member of a Group: HEAD is the same through both doors
+	var serve http.Handler = s.R
+	if len(p.Steps)%3 == 0 {
+		g := s.Env.NewGroup()
+		g.Add(nil, s.R)
+		serve = g
+		c.Class("head_served_through_a_group")
+	}
+	og := mon.Do(serve, mon.Req{Method: "GET", Path: "/p/7/x"})
 	runsAfterGet := h.Runs.Load()
-	oh := mon.Do(s.R, mon.Req{Method: "HEAD", Path: "/p/7/x"})
+	oh := mon.Do(serve, mon.Req{Method: "HEAD", Path: "/p/7/x"})
 	c.Eval()
 	st1, writes, lateHeader, lateStatus, total := progShape(p)
 	detail := func() any {
